@@ -135,6 +135,23 @@ fn classify(diff: Option<&Diff>, _src: Fmt, to: Fmt) -> Option<&'static str> {
 
 pub fn judge(input: &[u8], from: Option<Fmt>, src: Fmt, to: Fmt, mode: &Mode, doc: &Val, acc: &mut Acc) {
     let o = run_mode(input, mode, from, to);
+    judge_outcome(o, input, from, src, to, mode, doc, acc)
+}
+
+/// The same oracle for a reader that is interrupted now and then (ErrorKind::Interrupted, nothing
+/// delivered, the next call proceeds): xt may answer with an error, but a success must denote the value.
+pub fn judge_interrupted(input: &[u8], src: Fmt, to: Fmt, every: u64, doc: &Val, acc: &mut Acc) {
+    let mut out = Vec::new();
+    let rd = crate::mon::SchedReader::new(input, Sched::Fixed(7)).with_interrupts(every);
+    let verdict = crate::run::guarded(|| xt::translate_reader(rd, Some(src.xt()), to.xt(), &mut out));
+    acc.count(&format!("interrupted_reader_{}", verdict.class()));
+    if verdict.is_err() {
+        return;
+    }
+    judge_outcome(crate::run::Outcome { verdict, out }, input, Some(src), src, to, &Mode::Reader(Sched::Fixed(7)), doc, acc)
+}
+
+fn judge_outcome(o: crate::run::Outcome, input: &[u8], from: Option<Fmt>, src: Fmt, to: Fmt, mode: &Mode, doc: &Val, acc: &mut Acc) {
     acc.evals += 1;
     acc.count(&format!("pair_{}_{}", src.name(), to.name()));
     let mut diff: Option<Diff> = None;
@@ -327,6 +344,9 @@ pub fn run(ctx: &Ctx) -> i32 {
                         _ => bytes,
                     };
                     let det = detected_as(&bytes);
+                    if sp == 2 && i % 2 == 0 {
+                        judge_interrupted(&bytes, src, to, 2 + (i as u64 / 2) % 4, &doc, acc);
+                    }
                     for mode in &modes {
                         judge(&bytes, Some(src), src, to, mode, &doc, acc);
                         if det == Some(src) {
@@ -375,7 +395,7 @@ pub fn run(ctx: &Ctx) -> i32 {
             extra: serde_json::Map::new(),
             exhaustive: false,
             min_distinct: 200,
-            must_reach: vec![("heavy_documents".into(), 10), ("detected_runs".into(), 100), ("class_lookalike_strings".into(), 50), ("class_float_values".into(), 50), ("shared_translator_batches".into(), 1000), ("yaml_spelled_in_utf16_or_utf32".into(), 500), ("yaml_spelled_in_utf16_or_utf32_without_bom".into(), 100), ("shared_translator_batches_with_two_detections".into(), 100)],
+            must_reach: vec![("heavy_documents".into(), 10), ("detected_runs".into(), 100), ("class_lookalike_strings".into(), 50), ("class_float_values".into(), 50), ("shared_translator_batches".into(), 1000), ("yaml_spelled_in_utf16_or_utf32".into(), 500), ("interrupted_reader_ok".into(), 500), ("yaml_spelled_in_utf16_or_utf32_without_bom".into(), 100), ("shared_translator_batches_with_two_detections".into(), 100)],
         },
         acc,
     )
